@@ -50,6 +50,8 @@ def run_property(prop, tier, write_evidence=True):
     crashed = None
     try:
         mod.run(ctx, res)
+        from .rules import hygiene
+        hygiene.rule_names(ctx, res, prop)
         analysed = dict(ctx.model.summary())
         analysed['repo'] = ctx.model.root
         analysed['accessed_modules'] = sorted(ctx.model.accessed_modules)
